@@ -54,16 +54,19 @@ ContentClass(e) ==
 FixClass(e, ref, clause, how) ==
   LET R == SetOf(ref.pk)  G == SetOf(e.pk)
       (* input class of the history: the dtm-keyed snapshot cannot hold two packets with one
-         timestamp; replay is in timestamp order, the history may not have been *)
+         timestamp; replay is in timestamp order, the history may not have been.  For these two
+         classes the manifestation (lost / gained, which restore) is not part of the class. *)
       hist == IF Traces[tid].uniq = 0 THEN ":history-with-equal-timestamps"
               ELSE IF Traces[tid].chrono = 0 THEN ":non-chronological-history" ELSE "" IN
   IF ~SameSet(R, G) THEN
-     IF OnlyExpiredLost(R, G, SetOf(ref.exp)) THEN clause \o ":only-expired-packets-lost" \o how
-     ELSE IF Gained(R, G) # {} THEN clause \o ":packets-gained" \o hist \o how
-     ELSE clause \o ":packets-lost" \o hist \o how
+     IF OnlyExpiredLost(R, G, SetOf(ref.exp)) THEN clause \o ":only-expired-packets-lost"
+     ELSE IF hist # "" THEN clause \o ":packets-differ" \o hist
+     ELSE IF Gained(R, G) # {} THEN clause \o ":packets-gained" \o how
+     ELSE clause \o ":packets-lost" \o how
   ELSE IF Traces[tid].eav = 0 /\ e.sch # ref.sch THEN
-     IF e.ie = 0 /\ schemaOkIe1 THEN clause \o ":schema-differs-only-when-expired-packets-are-left-out" \o how
-     ELSE clause \o ":schema-differs" \o hist \o how
+     IF e.ie = 0 /\ schemaOkIe1 THEN clause \o ":schema-differs-only-when-expired-packets-are-left-out"
+     ELSE IF hist # "" THEN clause \o ":schema-differs" \o hist
+     ELSE clause \o ":schema-differs" \o how
   ELSE ""
 
 (* every distinct class is recorded once, with the op where it first occurred *)
